@@ -339,6 +339,21 @@ fn case(g: &mut Gen, ctx: &mut Ctx) -> CaseResult {
                     o => fail!("{}: text label {:?} not kept as text (with-private): {:?}", r.name, t, o.map_err(|e| format!("{:?}", e))),
                 }
             }
+            // … a text at the content-type position (the position of the CoAP content-format registry) is kept
+            // whenever it has the documented form (non-empty, one `/`, no white space at the ends)
+            if g.ratio(1, 3) {
+                let ct = crate::gen::gen_content_type(g, &mut crate::gen::Faults::none());
+                if let Item::Text(tx) = &ct {
+                    let hm = Item::Map(vec![(Item::Int(3), ct.clone())]);
+                    if crate::model::m_header(&hm, &mut crate::model::MCtx::default()).is_ok() {
+                        ctx.class("gen:text-content-type");
+                        match Header::from_slice(&encode(&hm)) {
+                            Ok(h) => ensure!(h.content_type == Some(coset::ContentType::Text(tx.clone())), "text content type {:?} decoded as {:?}", tx, h.content_type),
+                            Err(e) => fail!("header with the well-formed text content type {:?} rejected: {:?}", tx, e),
+                        }
+                    }
+                }
+            }
             // … and in the label-typed positions of maps, whatever the value under it
             let v = match g.below(4) {
                 0 => Item::Text("v".into()),
